@@ -117,6 +117,31 @@ def create(F, kind, shape, label, rev=False, reuse=False):
         return F.new_permutations(shape[0], shape[1], **kw)
     if kind == 'words':
         return F.new_words(shape[0], shape[1], **kw)
+    if kind in BIP_KINDS and reuse == 'user':
+        # a bipartite graph of the user's own class (BaseBipartiteGraph is the
+        # documented argument type) whose neighbour lists are in DEcreasing order
+        from cnfgen.graphs import BaseBipartiteGraph
+        adj_ = {u: sorted({v for (a_, v) in shape[2] if a_ == u}, reverse=True) for u in range(1, shape[0] + 1)}
+
+        class UserBipartite(BaseBipartiteGraph):
+            def __init__(self):
+                BaseBipartiteGraph.__init__(self, shape[0], shape[1], 'a graph class of the user')
+
+            def right_neighbors(self, u):
+                return list(adj_[u])
+
+            def left_neighbors(self, v):
+                return [u for u in sorted(adj_) if v in adj_[u]]
+
+            def has_edge(self, u, v):
+                return v in adj_.get(u, [])
+
+            def number_of_edges(self):
+                return sum(len(x) for x in adj_.values())
+        B = UserBipartite()
+        if kind == 'bipartite_edges':
+            return F.new_bipartite_edges(B, **kw)
+        return F.new_sparse_mapping(B, **kw)
     if kind in BIP_KINDS:
         B = BipartiteGraph(shape[0], shape[1])
         for u, v in _ordered(shape[2], rev):
@@ -319,6 +344,9 @@ def name_checks(F, M, V, cls, stats=None, latex=True, fam='history'):
             V.bad('latex:names:exception:%s' % type(e).__name__, repr(e))
 
 
+FREE_ORDER = [False]     # a graph class of the user lists neighbours in its own order
+
+
 def group_checks(g, kind, shape, first, label, V, stats=None, patterns=True):
     """All index <-> identifier obligations of one group object.
     `first` is the identifier the group must start at; `label` the label
@@ -369,7 +397,7 @@ def group_checks(g, kind, shape, first, label, V, stats=None, patterns=True):
         V.bad('%s:enumeration-order' % K, '[g(*i) for i in g.indices()] = %r, identifiers %r; indices %r'
               % (in_order[:12], ids[:12], idxs[:12]))
         return None
-    if idxs != idxs_ref:
+    if idxs != idxs_ref and not FREE_ORDER[0]:
         # same set, identifiers ascending, but not the documented order
         V.bad('%s:documented-order' % K, 'indices() = %r, documented order %r' % (idxs[:12], idxs_ref[:12]))
     idxset = set(idxs)
@@ -540,7 +568,8 @@ def check_A(case, stats=None):
     if kind == 'variable':
         label = shape                # 'X' or None
     try:
-        g = create(F, kind, shape, label, rev, reuse=bool(case.get('reuse')))
+        FREE_ORDER[0] = bool(case.get('user'))
+        g = create(F, kind, shape, label, rev, reuse=('user' if case.get('user') else bool(case.get('reuse'))))
     except ValueError as e:
         if kind == 'binary_mapping' and (shape[0] < 1 or shape[1] < 1):
             if stats is not None:
@@ -585,7 +614,10 @@ def check_A(case, stats=None):
             M.numvar += len(names)
     if stats is not None:
         stats['empty_groups' if len(idxs_ref) == 0 else 'nonempty_groups'] += 1
-    if V.out:
+    if V.out or case.get('user'):
+        # (with a graph class of the user the identifiers follow ITS neighbour
+        # order: the name model of the later steps, written for sorted lists,
+        # does not apply; the group obligations above do)
         return V.out, len(idxs_ref) > 0
     name_checks(F, M, V, cls, stats, latex=False, fam=kind)
     # something after the group: an anonymous variable and another block
@@ -749,6 +781,10 @@ def cases_A(tier, seed):
                     if graphlike:
                         c['rev'] = ci % 2
                     cases.append(c)
+                    if kind in BIP_KINDS and ctx in ('fresh', 'anon3') and lab == 'custom' and shape[2]:
+                        c2 = dict(c)
+                        c2['user'] = True
+                        cases.append(c2)
                     if kind == 'graph_edges' and ctx == 'fresh' and lab == 'custom' and shape[1]:
                         c2 = dict(c)
                         c2['reuse'] = True
